@@ -607,10 +607,10 @@ func (ll *LocationList) Len() int {
 // Slice returns the slice representation of the list.
 func (ll *LocationList) Slice() []Location {
 	list := []Location{ll.Data}
-	if ll.Next == nil {
-		return list
+	for node := ll.Next; node != nil; node = node.Next {
+		list = append(list, node.Data)
 	}
-	return append(list, ll.Next.Slice()...)
+	return list
 }
 
 // Push a Location object to the end of the list. If the Location object is
@@ -714,8 +714,14 @@ type Joined []Location
 // a Joined object will be returned.
 func Join(locs ...Location) Location {
 	list := LocationList{}
+	// Push appends behind the last element: keep track of it instead of
+	// walking the whole list again for every location.
+	last := &list
 	for _, loc := range locs {
-		list.Push(loc, true)
+		last.Push(loc, true)
+		for last.Next != nil {
+			last = last.Next
+		}
 	}
 
 	switch list.Len() {
